@@ -7,9 +7,9 @@ import (
 	"strconv"
 	"strings"
 
+	"github.com/yandex/pandora/components/providers/http/util"
 	scnconfig "github.com/yandex/pandora/components/providers/scenario/config"
 	"github.com/yandex/pandora/components/providers/scenario/templater"
-	"github.com/yandex/pandora/components/providers/http/util"
 	coreconfig "github.com/yandex/pandora/core/config"
 	"github.com/yandex/pandora/lib/mp"
 	"github.com/yandex/pandora/lib/str"
